@@ -46,7 +46,8 @@ def int_decorator(size, id_, min_, max_):
                 raise ProphyError("not an int")
             if not min_ <= value <= max_:
                 raise ProphyError("value: {} out of {}B integer's bounds: [{}, {}]".format(value, size, min_, max_))
-            return int(value) if isinstance(value, bool) else value
+            """ subclasses of int (bool, IntEnum, re.RegexFlag) are stored as the plain integer they encode as """
+            return value if type(value) in (int, long) else int(value)
 
         cls._check = check
 
